@@ -26,6 +26,50 @@ func blsSections(t *T) {
 	if !t.quick {
 		n = 300
 	}
+	// scalars of every shape: single bits, runs of ones, leading zero bytes followed by bytes with and
+	// without the top bit, r-1, r-2: public key, a signature and its verification
+	{
+		var shaped [][]byte
+		add := func(b []byte) { shaped = append(shaped, b) }
+		for _, k := range []int{0, 1, 6, 7, 8, 15, 16, 63, 64, 65, 127, 128, 191, 192, 247, 248, 250, 253, 254} {
+			b := make([]byte, 32)
+			b[31-k/8] = 1 << (k % 8)
+			add(b)
+			c := make([]byte, 32)
+			for j := 31 - k/8; j < 32; j++ {
+				c[j] = 0xff
+			}
+			c[31-k/8] = byte(1<<(k%8+1) - 1)
+			add(c)
+		}
+		for z := 1; z <= 30; z += 3 {
+			for _, first := range []byte{0x01, 0x7f, 0x80, 0xff} {
+				b := rb(r, 32)
+				for j := 0; j < z; j++ {
+					b[j] = 0
+				}
+				b[z] = first
+				add(b)
+			}
+		}
+		order, _ := new(big.Int).SetString("73eda753299d7d483339d80809a1d80553bda402fffe5bfeffffffff00000001", 16)
+		add(new(big.Int).Sub(order, big.NewInt(1)).FillBytes(make([]byte, 32)))
+		add(new(big.Int).Sub(order, big.NewInt(2)).FillBytes(make([]byte, 32)))
+		hs := crypto.NewExpandMsgXOFKMAC128("shaped")
+		for _, b := range shaped {
+			sk, err := crypto.DecodePrivateKey(blsAlg, b)
+			if err != nil {
+				t.line("bls", "shaped-scalar", hx(b), errClass(err))
+				continue
+			}
+			pk := sk.PublicKey()
+			sig, _ := sk.Sign([]byte("shaped"), hs)
+			ok, _ := pk.Verify(sig, []byte("shaped"), hs)
+			pop, _ := crypto.BLSGeneratePOP(sk)
+			okp, _ := crypto.BLSVerifyPOP(pk, pop)
+			t.line("bls", "shaped-scalar", hx(b), hx(pk.Encode())+"/"+dg(sig)+fmt.Sprintf("/%v/%v", ok, okp))
+		}
+	}
 	var sks []crypto.PrivateKey
 	var pks []crypto.PublicKey
 	for i := 0; i < n; i++ {
